@@ -92,16 +92,23 @@ def validHeader (text : Bytes) (refs : List (Bytes × Nat)) : Bool :=
   decide (text.length < 4294967296) && decide (refs.length < 4294967296) &&
   refs.all (fun p => p.1.all (fun b => b != 0) && decide (p.2 < 4294967296))
 
-/-- a record the BAM specification allows (`nref` references in the header) -/
+/-- what DECODING needs of a record (`nref` references in the header): the fields that are read back as integers fit
+their width, the reference index is below `nref` (any negative index means "unmapped"), CIGAR words fit 4+28 bits,
+sequence codes fit a nibble, one quality per base, the block fits its 32-bit size field. Nothing is asked of the read
+name, mapq, bin, mate fields, quality values or tags. -/
 def valid (nref : Nat) (r : Rec) : Bool :=
-  decide (-1 ≤ r.refID) && decide (r.refID < (nref : Int)) && inI32 r.refID && inI32 r.pos &&
-  decide (r.mapq < 256) && decide (r.bin < 65536) && decide (r.flag < 65536) &&
-  inI32 r.nextRef && inI32 r.nextPos && inI32 r.tlen &&
-  decide (1 ≤ r.name.length) && decide (r.name.length ≤ 254) && r.name.all (fun b => b != 0 && decide (b < 256)) &&
+  decide (r.refID < (nref : Int)) && inI32 r.refID && inI32 r.pos && decide (r.flag < 65536) &&
   decide (r.cigar.length < 65536) && r.cigar.all (fun p => decide (p.1 < 16) && decide (p.2 < 268435456)) &&
   decide (r.seq.length < 2147483648) && r.seq.all (fun c => decide (c < 16)) &&
-  decide (r.qual.length = r.seq.length) && r.qual.all (fun q => decide (q < 256)) &&
-  r.tags.all (fun q => decide (q < 256)) && decide (32 + (varPart r).length < 4294967296)
+  decide (r.qual.length = r.seq.length) && decide (32 + (varPart r).length < 4294967296)
+
+/-- a record the BAM specification allows: `valid` plus refID ≥ -1, every stored value fits its field, the read name
+has 1..254 non-NUL characters -/
+def specValid (nref : Nat) (r : Rec) : Bool :=
+  valid nref r && decide (-1 ≤ r.refID) && decide (r.mapq < 256) && decide (r.bin < 65536) &&
+  inI32 r.nextRef && inI32 r.nextPos && inI32 r.tlen &&
+  decide (1 ≤ r.name.length) && decide (r.name.length ≤ 254) && r.name.all (fun b => b != 0 && decide (b < 256)) &&
+  r.cigar.all (fun p => decide (p.1 < 9)) && r.qual.all (fun q => decide (q < 256)) && r.tags.all (fun q => decide (q < 256))
 
 /-- what decoding produces per record -/
 structure DRec where
@@ -228,17 +235,25 @@ def readWhole (oldCig oldChrom : Bool) (names : List Bytes) (body : Bytes) : Lis
 structure RState where
   rest : Bytes
   prepend : Bytes
+  finished : Bool := false      -- `self._is_finished`: the previous read returned fewer than k bytes
 
 /-- one `NumpyFileReader.read_chunk(min_chunk_size = k)`; `none` = returned `None`. Delivers the decoded
-records and the chunk's own bytes (`buffer.data`, what the chunk writes back) -/
+records and the chunk's own bytes (`buffer.data`, what the chunk writes back).
+A read that returns nothing ends the file; if it does so exactly at a read boundary while bytes are
+still pending (`_prepend`), the pending bytes are terminated the way a short final read would have been. -/
 def readChunk (oldCig oldChrom : Bool) (names : List Bytes) (k : Nat) (st : RState) : Option ((List DRec × Bytes) × RState) :=
   let got := st.rest.take k
   let finished := decide (got.length < k)
-  if got.length = 0 then none else
+  if got.length = 0 then
+    if st.finished || st.prepend.isEmpty then none else
+    let chunk := addNewline st.prepend
+    let r := decodeChunk oldCig oldChrom names chunk
+    some ((r.1, chunk.take r.2), { rest := [], prepend := [], finished := true })
+  else
   let a := if finished then addNewline got else got
   let chunk := st.prepend ++ a
   let r := decodeChunk oldCig oldChrom names chunk
-  some ((r.1, chunk.take r.2), { rest := st.rest.drop k, prepend := if finished then [] else chunk.drop r.2 })
+  some ((r.1, chunk.take r.2), { rest := st.rest.drop k, prepend := if finished then [] else chunk.drop r.2, finished := finished })
 
 /-- `NpDataclassReader.read_chunks`: `takewhile(len, (read_chunk() for _ in repeat(None)))` -/
 def readChunks (oldCig oldChrom : Bool) (names : List Bytes) (k : Nat) : Nat → RState → List (List DRec × Bytes)
@@ -250,6 +265,54 @@ def readChunks (oldCig oldChrom : Bool) (names : List Bytes) (k : Nat) : Nat →
 
 def readAllChunks (oldCig oldChrom : Bool) (names : List Bytes) (k : Nat) (body : Bytes) : List (List DRec × Bytes) :=
   readChunks oldCig oldChrom names k (body.length + 1) { rest := body, prepend := [] }
+
+/-- `NumpyFileReader.read_chunks` (used by `count_entries`): `while not finished: c = read_chunk(); if c is None: break; yield c`
+— chunks without records are delivered too -/
+def readChunksRaw (oldCig oldChrom : Bool) (names : List Bytes) (k : Nat) : Nat → RState → List (List DRec × Bytes)
+  | 0, _ => []
+  | fuel + 1, st =>
+    if st.finished then [] else
+    match readChunk oldCig oldChrom names k st with
+    | none => []
+    | some (c, st') => c :: readChunksRaw oldCig oldChrom names k fuel st'
+
+/-- `bnp.count_entries(file)`: chunks of 500000 bytes, `sum(chunk.count_entries())` -/
+def countEntries (oldCig oldChrom : Bool) (names : List Bytes) (k : Nat) (body : Bytes) : Nat :=
+  ((readChunksRaw oldCig oldChrom names k (body.length + 2) { rest := body, prepend := [] }).map (·.1.length)).sum
+
+/-! spec-level complete decoder (uses `words`/`unpackNibbles` only as list utilities) -/
+
+/-- spec-level COMPLETE decoder of one alignment block (every stored field, tags included): the inverse of `encodeRec`,
+written from SAMv1 §4.2 independently of the code's decoder. Returns the record and the bytes after the block. -/
+def decodeFull (d : Bytes) : Option (Rec × Bytes) :=
+  if d.length < 36 then none else
+  let bs := fromLE (slice d 0 4)
+  if bs < 32 || d.length < 4 + bs then none else
+  let e := d.take (4 + bs)
+  let lName := byteAt e 12
+  let nCig := fromLE (slice e 16 2)
+  let lSeq := fromLE (slice e 20 4)
+  let cigStart := 36 + lName
+  let seqStart := cigStart + 4 * nCig
+  let qualStart := seqStart + (lSeq + 1) / 2
+  let tagStart := qualStart + lSeq
+  if lName = 0 || 4 + bs < tagStart then none else
+  some ({ refID := asI32 (fromLE (slice e 4 4)), pos := asI32 (fromLE (slice e 8 4)), mapq := byteAt e 13,
+          bin := fromLE (slice e 14 2), flag := fromLE (slice e 18 2),
+          nextRef := asI32 (fromLE (slice e 24 4)), nextPos := asI32 (fromLE (slice e 28 4)), tlen := asI32 (fromLE (slice e 32 4)),
+          name := slice e 36 (lName - 1),
+          cigar := (words (slice e cigStart (4 * nCig))).map (fun w => (w % 16, w / 16)),
+          seq := (unpackNibbles (slice e seqStart ((lSeq + 1) / 2))).take lSeq,
+          qual := slice e qualStart lSeq,
+          tags := slice e tagStart (4 + bs - tagStart) }, d.drop (4 + bs))
+
+/-- parse a whole record area with the complete decoder -/
+def decodeFullAll : Nat → Bytes → Option (List Rec)
+  | 0, _ => none
+  | fuel + 1, d => if d.isEmpty then some [] else
+    match decodeFull d with
+    | none => none
+    | some (r, rest) => (decodeFullAll fuel rest).map (r :: ·)
 
 /-! reference interval (`count_reference_length`, `alignment_to_interval`, `BamIntervalBuffer`) -/
 
